@@ -233,8 +233,13 @@ def check(ctx, rep):
             kinds.add("ok")
             zc = [e for e in p.calls() if e.d["callee"] is fz or q.call_name(e) == "f_zip"]
             mc = [e for e in p.calls() if q.call_name(e) == "f_map"]
-            okz = len(zc) == 1 and len(zc[0].d["args"]) == 1 and zc[0].d["args"][0][0] == "star" and not zc[0].d["kwargs"]
-            if okz:
+            okz = len(zc) == 1 and not zc[0].d["kwargs"]
+            if okz and not any(isinstance(a, tuple) and a and a[0] == "star" for a in zc[0].d["args"]):
+                # f_zip(*futures) with the list known on this path: the futures arrive as positional arguments
+                okz = tuple(zc[0].d["args"]) == tuple(q.result_of(e) for e in ucalls)
+            elif okz:
+                okz = len(zc[0].d["args"]) == 1
+            if okz and any(isinstance(a, tuple) and a and a[0] == "star" for a in zc[0].d["args"]):
                 seq = zc[0].d["args"][0][1]
                 if seq[0] == "comp":
                     okz = seq[1] == "ListComp" and seq[3] == (XS,) and not seq[4]
